@@ -311,6 +311,33 @@ pub struct Newtypes {
 	e: Vec<E>,
 }
 
+/// fields that are SKIPPED when serializing (`skip_serializing_if`: the derive calls `SerializeStruct::skip_field` /
+/// `SerializeStructVariant::skip_field`, provided methods whose default does nothing): the Value has no entry for them, as
+/// serde_json's rendering has none, and they come back as their defaults
+#[derive(Serialize, Deserialize, PartialEq, Debug, Clone)]
+pub enum SkipE {
+	S {
+		#[serde(skip_serializing_if = "Option::is_none", default)]
+		x: Option<bool>,
+		y: u8,
+		#[serde(skip_serializing_if = "Vec::is_empty", default)]
+		z: Vec<i8>,
+	},
+}
+#[derive(Serialize, Deserialize, PartialEq, Debug, Clone)]
+pub struct Skips {
+	a: u8,
+	#[serde(skip_serializing_if = "Option::is_none", default)]
+	o: Option<u8>,
+	#[serde(skip_serializing_if = "Vec::is_empty", default)]
+	v: Vec<u8>,
+	#[serde(skip_serializing_if = "String::is_empty", default)]
+	s: String,
+	e: SkipE,
+	#[serde(skip_serializing_if = "Option::is_none", default)]
+	last: Option<Box<Skips>>,
+}
+
 /// an integer of a random LENGTH (1..19 digits), either sign: digit-count boundaries of whatever buffer formats it
 fn gen_i64_by_len(rng: &mut Rng) -> i64 {
 	let digits = 1 + rng.below(19);
@@ -650,6 +677,19 @@ pub fn record(args: &Args) {
 				e: (0..rng.below(2)).map(|_| gen_e(&mut rng, 1)).collect(),
 			};
 			lines.push(typed_event("Newtypes", &nt));
+		}
+		if want("typed") && i % 9 == 5 {
+			fn gen_skips(rng: &mut Rng, depth: usize) -> Skips {
+				Skips {
+					a: rng.below(256) as u8,
+					o: *rng.pick(&[None, None, Some(0u8), Some(9u8)]),
+					v: rng.pick(&[vec![], vec![], vec![1u8], vec![0, 255]]).clone(),
+					s: rng.pick(&["", "", "x", "\u{e9}\""]).to_string(),
+					e: SkipE::S { x: *rng.pick(&[None, Some(true), Some(false)]), y: rng.below(256) as u8, z: rng.pick(&[vec![], vec![-1i8, 1]]).clone() },
+					last: if depth > 0 && rng.chance(1, 2) { Some(Box::new(gen_skips(rng, depth - 1))) } else { None },
+				}
+			}
+			lines.push(typed_event("Skips", &gen_skips(&mut rng, 2)));
 		}
 		if want("typed") && i == 1 {
 			let big = Big {
